@@ -585,6 +585,16 @@ int gen_plan(struct plan *p, const char *scenario, const char *prop, uint64_t se
 		r = 0;
 	} else
 		r = gen_ext(p, scenario, prop, tier);
+	if (r == 0 && !strcmp(scenario, "zoo")) {
+		/* some events that other threads post to are one-shot: their handler unregisters (and frees)
+		 * them the first time it runs */
+		int i;
+		for (i = 0; i < p->nobj; i++)
+			if (p->obj[i].kind == K_EVENT && p->obj[i].p[0] == 1 && P(25)) {
+				p->obj[i].p[0] = 2;
+				add_op(CTX_CB, i, 1, OP_UNREG, i, 0, 0, 0);
+			}
+	}
 	if (r == 0) {
 		/* task structures initialised by the first thread on behalf of another loop thread */
 		int i;
